@@ -290,8 +290,10 @@ pub fn run(ctx: &mut Ctx) -> Result<(), Violation> {
             .collect();
         let text = t.chance(40);
         let c = Case { f, vars, text };
+        let mode = crate::fun::gen_operands(&mut t);
         record(&c, st);
-        check_case(&c)
+        st.class(&format!("operands:{}", mode.name()));
+        crate::fun::with_operands(mode, || check_case(&c))
     });
     ctx.stage("random-functions-and-lists", false, r)?;
     Ok(())
@@ -299,7 +301,7 @@ pub fn run(ctx: &mut Ctx) -> Result<(), Violation> {
 
 pub fn replay(case: &Value) -> Check {
     match Case::from_json(case) {
-        Some(c) => check_case(&c),
+        Some(c) => crate::fun::with_operands(crate::fun::case_operands(case), || check_case(&c)),
         None => Err(Violation::new("unreadable replay case", case.clone())),
     }
 }
